@@ -9,7 +9,7 @@ pub fn c20(tier: &str) -> i32 {
     let groups = vec![
         g("roundtrip-request", 8, "every Request variant x field values { \"\", a, e-acute, 300 B, text with NUL, 70 000 B } / f64 {0,-0.0,1.5,NaN,inf,-inf,min subnormal} x usize {0,1,2^32-1,2^32,u64::MAX}: to_bytes/from_bytes and send_request/recv_request over an in-memory pipe"),
         g("roundtrip-response", 64, "every Response variant x the same field values; result sets r x c for r,c in 0..=3 with every assignment of {\"\", e-acute} to headers and cells (thorough: also the 5-string alphabet where headers+cells <= 4)"),
-        g("frame-limits", 1, "message of exactly MAX_MESSAGE_SIZE, one byte more, oversized and short frame headers, back-to-back frames"),
+        g("frame-limits", 1, "message of exactly MAX_MESSAGE_SIZE, one byte more, oversized and short frame headers, back-to-back frames, a refused over-large send between two good messages on one stream (both directions)"),
         g("bytes-le2", 4096, "ALL byte strings of length <= 2 to Request::from_bytes, Response::from_bytes and read_message"),
         g("bytes-3", 1 << 14, "byte strings of length 3 (quick: those starting with the protocol version byte; thorough: all 2^24)"),
         g("lengths-request", 8, "each u32 length field of each canonical request encoding set to 0, len-1, len+1, 2^24+1, 2^31, 2^32-1"),
